@@ -51,7 +51,7 @@ Proof.
   destruct (rep_cycle T h st a R Hr) as [t' [rest' [E' [_ [_ P]]]]].
   rewrite E in E'. inversion E'; subst t' rest'. clear E'.
   destruct (cycle_facts T h a t rest P) as [_ [Hlt _]].
-  unfold a_peek, with_cycle, peek. rewrite E. erewrite bind_ok by exact Hrun.
+  unfold a_peek, with_cycle, peek, peek_gen. rewrite E. erewrite bind_ok by exact Hrun.
   unfold peek_nil. rewrite enc_nil.
   destruct (offset (a :: t) n) as [x|] eqn:Eo.
   - assert (Hx : x < size h) by (apply Hlt; apply (offset_in _ _ _ Eo)).
